@@ -17,6 +17,6 @@ CONFIG = dict(
               "a record verifies under exactly the seed it was written with (RecordCodec theorems; in crash cases the judge uses the seed the block list reports at write time, in differential cases the real checksum)",
               "a fresh seed differs from all earlier seeds (real seeds come from random.CryptoThreadSafeGenerator); same geometry across restarts",
               "bytes read are canonicalised by the harness to (key, version) when they equal that version's content exactly (bytes.Equal), else reported raw",
-              "theorems cover the first life (crash of a store that started empty); repeated crashes and the directory/fsync protocol are covered by the harness (nested experiments) and by the proved allocation lemmas only",
+              "crash_safe is proved for a single crash of a store that started on empty media (incl. the directory/fsync protocol and region reuse); repeated crashes are covered by the any-medium allocation theorems and by nested harness experiments only",
               "goroutine scheduling below lock/I-O granularity (quiescence via runtime.Stack after every step)"],
 )
